@@ -27,7 +27,7 @@ Definition T := (flags * cin * outcome (list iv) * list (Z*Z*Z*bool))%type.
 (* model = implementation: the outcome (exons or exception class) and the get_error_count calls made *)
 Definition check (c:T) : bool :=
   let '(fl, inp, out, calls) := c in
-  outcome_eqb ivs_eqb (correct_assigned_read fl inp) out &&
+  outcome_eqb ivs_eqb (correct_assigned_read_v VARIANT fl inp) out &&
   list_eqb call_eqb (if early_return inp then [] else error_count_calls fl inp) calls.
 (* the specification (the statements of the C14 theorems) evaluated on the implementation's output *)
 Definition spec_ok (fl:flags) (inp:cin) (ex:list iv) : bool :=
@@ -35,13 +35,13 @@ Definition spec_ok (fl:flags) (inp:cin) (ex:list iv) : bool :=
 Definition prop (c:T) : bool :=
   let '(fl, inp, out, calls) := c in
   match out with
-  | Ok ex => (negb (events_wf fl inp) || sd_b ex) && (negb (regions_ordered (c_events inp)) || spec_ok fl inp ex)
-  | Raises _ => negb (events_wf fl inp)
+  | Ok ex => (negb (events_wf_v VARIANT fl inp) || sd_b ex) && (negb (regions_ordered (c_events inp)) || spec_ok fl inp ex)
+  | Raises _ => negb (events_wf_v VARIANT fl inp)
   end.
 """
 # real event lists: the hypotheses themselves are part of what is checked
-PRE_REAL = PRE_EC.replace("""  | Ok ex => (negb (events_wf fl inp) || sd_b ex) && (negb (regions_ordered (c_events inp)) || spec_ok fl inp ex)
-  | Raises _ => negb (events_wf fl inp)""", """  | Ok ex => events_wf fl inp && regions_ordered (c_events inp) && sd_b ex && spec_ok fl inp ex
+PRE_REAL = PRE_EC.replace("""  | Ok ex => (negb (events_wf_v VARIANT fl inp) || sd_b ex) && (negb (regions_ordered (c_events inp)) || spec_ok fl inp ex)
+  | Raises _ => negb (events_wf_v VARIANT fl inp)""", """  | Ok ex => events_wf_v VARIANT fl inp && regions_ordered (c_events inp) && sd_b ex && spec_ok fl inp ex
   | Raises _ => false""")
 assert PRE_REAL != PRE_EC
 
@@ -269,10 +269,46 @@ def repo_illumina_tests():
                 pass
     return out
 
+# ---- which of the two repairs of ExonCorrector.process_events the checked-out code carries (fixes/C01_fuzzy_junction_keeps_exons.diff,
+#      fixes/C14_fake_terminal_exon_drops_restored_microintron.diff): decided by running the REAL corrector on the two witnesses
+W_FUZZY = dict(exons=[(1000, 1100), (1300, 1304)], noninf=False, has_match=True, events=[("none", (UNDEF, UNDEF), (UNDEF, UNDEF))], known=[(1101, 1305)], isoreg=(1000, 1500),
+               iso_introns=[(1101, 1305)], delta=6, oracle=[((0, 0), (1, 0))])
+W_FAKE = dict(exons=[(100, 130), (301, 400)], noninf=False, has_match=True, events=[("fake_micro_intron_retention", (0, 0), (ABSENT, 0)), ("fake_terminal_exon_left", (XL, XL), (0, 0))],
+              known=[(110, 120)], isoreg=(50, 600), iso_introns=[(110, 120)], delta=6, oracle=[((0, 0), (0, 0))])
+KEY_FUZZY = "corrector:fuzzy-junction-beyond-exon"
+KEY_FAKE = "corrector:fake-terminal-exon-keeps-microintron"
+_VARIANT = {}
+def corrector_variant():
+    """(fuzzy repaired?, fake-terminal-exon repaired?, Coq term)"""
+    if not _VARIANT:
+        FL = real_flags()
+        r1, _ = run_corrector(FL["default_ont"], W_FUZZY); r2, _ = run_corrector(FL["default_ont"], W_FAKE)
+        fz = r1 == ("ok", [(1000, 1100), (1300, 1304)]); fk = r2 == ("ok", [(301, 400)])
+        _VARIANT.update(fuzzy=fz, fake=fk, term="(mkVar %s %s)" % (cbool(fz), cbool(fk)), out=(r1, r2))
+    return _VARIANT
+def pre_variant(pre): return pre.replace("VARIANT", corrector_variant()["term"])
+
+def malformed(res): return any(a[0] > a[1] for a in res) or any(a[1] >= b[0] for a, b in zip(res, res[1:]))
+def defect_signature(o):
+    """structural attribution of a malformed result to one of the two known defects of the unrepaired corrector: re-run the REAL corrector with
+       the repaired choice emulated on the same input (fuzzy flag off = no reference sites at all; fake-terminal flag off) and see which change cures it"""
+    r = o["impl"]
+    if r[0] != "ok" or not malformed(r[1]): return None
+    fl = list(o["flags"]); v = corrector_variant()
+    if not v["fuzzy"] and fl[0]:
+        r2, _ = run_corrector(tuple([False] + fl[1:]), o)
+        if r2[0] == "ok" and not malformed(r2[1]): return KEY_FUZZY
+    if not v["fake"] and fl[4] and any(e[0] == "fake_terminal_exon_left" for e in o["events"]) and any(e[0] == "fake_micro_intron_retention" for e in o["events"]):
+        r2, _ = run_corrector(tuple(fl[:4] + [False] + fl[5:]), o)
+        if r2[0] == "ok" and not malformed(r2[1]): return KEY_FAKE
+    return None
+
 def corrector_key(o):
     """structural signature of a violation found on real assigner output"""
     r = o["impl"]
     if r[0] != "ok": return "corrector:raises-%s" % r[1]
+    sig = defect_signature(o)
+    if sig: return sig
     res = r[1]; ex = o["exons"]
     bad = any(a[0] > a[1] for a in res) or any(a[1] >= b[0] for a, b in zip(res, res[1:]))
     types_ = sorted(set(e[0] for e in o["events"] if e[2][0] != UNDEF))
@@ -666,7 +702,7 @@ def pipeline_level(ctx, quick):
                                                                        cbool(left[0]), cbool(left[1]), cbool(right[0]), cbool(right[1]), civs(iso), tterm)
                 bcases.append((term, dict(run=job["name"], args=job["args"][12:], record=rrow["raw"], tsv_line=[l["read_id"], l["isoform_id"], l["assignment_type"], l["assignment_events"], l["exons"]],
                                           changed=list(map(tuple, rrow["exons"])) != [tuple(e) for e in l["exons"]], illumina=job["illumina"], assigned=assigned)))
-        mism, viol = ctx.corr("pipeline_traces_exon_corrector", PRE_REAL, tcases, shard=300, nontrivial=changed, timeout=300)
+        mism, viol = ctx.corr("pipeline_traces_exon_corrector", pre_variant(PRE_REAL), tcases, shard=300, nontrivial=changed, timeout=300)
         ctx.corr_report("pipeline_traces_exon_corrector", mism, viol, keyfn=corrector_key)
         variant = illumina_variant()
         mism, viol = ctx.corr("pipeline_traces_illumina", PRE_ILL.replace("MODEL", variant), icases, shard=300, nontrivial=changed, timeout=300)
@@ -696,6 +732,17 @@ def run(ctx):
     ctx.prepare("C14.v")
     FL = real_flags()
     rnd = ctx.rnd
+    v = corrector_variant()
+    ctx.notes.append("ExonCorrector: the checked-out code behaves like the model variant %s (fuzzy-junction repair %s, fake-terminal-exon repair %s)" %
+                     (v["term"], "present" if v["fuzzy"] else "ABSENT", "present" if v["fake"] else "ABSENT"))
+    if not v["fuzzy"]:
+        ctx.violation(KEY_FUZZY, "ExonCorrector.process_events (correct_fuzzy_junctions): a reference splice site within delta is taken although it lies beyond the read's terminal exon "
+                      "(or crosses the intron's other site): the corrected exon list is malformed", {"input": W_FUZZY, "strategy": "default_ont", "impl_output": v["out"][0],
+                      "expected": [(1000, 1100), (1300, 1304)], "fix": "fixes/C01_fuzzy_junction_keeps_exons.diff"})
+    if not v["fake"]:
+        ctx.violation(KEY_FAKE, "ExonCorrector.process_events: a micro-intron restored inside the first read exon is kept although that exon is dropped as fake terminal exon: the first "
+                      "corrected exon is inverted", {"input": W_FAKE, "strategy": "default_ont", "impl_output": v["out"][1], "expected": [(301, 400)],
+                      "fix": "fixes/C14_fake_terminal_exon_drops_restored_microintron.diff"})
 
     # ---- 1. unit correspondence: ExonCorrector on generated exon lists and event lists
     cases = []
@@ -712,7 +759,7 @@ def run(ctx):
              "(+7 it ignores) x read regions x isoform regions x 6 strategies (flags from the real preset table; a third of this grid per seed in the quick tier), then random genes with jittered / "
              "exon-skipping / intron-retaining / fake-terminal-exon reads and 0-5 events (5% off-nominal index regions -> IndexError/AssertionError; backwards regions -> non-termination, alarm-guarded); "
              "the get_error_count calls are compared too; non-trivial = corrected exons differ from the input")
-    mism, viol = ctx.corr("exon_corrector_unit", PRE_EC, cases, shard=400, nontrivial=changed, timeout=300)
+    mism, viol = ctx.corr("exon_corrector_unit", pre_variant(PRE_EC), cases, shard=400, nontrivial=changed, timeout=300)
     ctx.corr_report("exon_corrector_unit", mism, viol, keyfn=corrector_key)
 
     # ---- 2. the preset table and the constants the model copies
@@ -784,7 +831,7 @@ def run(ctx):
              "micro introns) and reads derived by artifact recipes (jitter within/beyond delta, skipped exon, intron shift, fake terminal exon, misplaced terminal exon, "
              "retained (micro) intron, truncation, extra intron, combinations) x 4 matching strategies x 6 correction strategies; events_wf and regions_ordered must hold of EVERY real event list "
              "(validation of the hypotheses of the theorems); non-trivial = corrected exons differ from the input")
-    mism, viol = ctx.corr("real_assigner_inprocess", PRE_REAL, cases, shard=400, nontrivial=changed, timeout=300)
+    mism, viol = ctx.corr("real_assigner_inprocess", pre_variant(PRE_REAL), cases, shard=400, nontrivial=changed, timeout=300)
     ctx.corr_report("real_assigner_inprocess", mism, viol, keyfn=corrector_key)
     ctx.notes.append("real assigner stream: %s" % dict(stats))
 
